@@ -359,9 +359,20 @@ pub(crate) mod u6 {
                 objs[3] = StructObject::new(vec![z], &mut t) as *mut ObjectHeader;
                 n = 4;
             }
-            _ => {
+            3 => {
                 objs[0] = ArrayObject::new(vec![z], &mut t) as *mut ObjectHeader;
                 objs[1] = EnumObject::new(kani::any(), z, &mut t) as *mut ObjectHeader;
+                n = 2;
+            }
+            4 => {
+                objs[0] = ArrayObject::new(vec![z, z], &mut t) as *mut ObjectHeader;
+                objs[1] = ArrayObject::new(vec![z], &mut t) as *mut ObjectHeader;
+                objs[2] = ArrayObject::new(vec![z], &mut t) as *mut ObjectHeader;
+                n = 3;
+            }
+            _ => {
+                objs[0] = ArrayObject::new(vec![z], &mut t) as *mut ObjectHeader;
+                objs[1] = ArrayObject::new(vec![z], &mut t) as *mut ObjectHeader;
                 n = 2;
             }
         }
@@ -448,5 +459,17 @@ pub(crate) mod u6 {
     #[kani::unwind(__U__)]
     fn process_gray_preserves_inv_t3() {
         process_gray_body(3)
+    }
+    #[cfg(kani)]
+    #[kani::proof]
+    #[kani::unwind(4)]
+    fn process_gray_preserves_inv_t4() {
+        process_gray_body(4)
+    }
+    #[cfg(kani)]
+    #[kani::proof]
+    #[kani::unwind(4)]
+    fn process_gray_preserves_inv_t5() {
+        process_gray_body(5)
     }
 }
